@@ -70,6 +70,18 @@ func judge(c Case) string {
 		return ""
 	}
 	if res.BuildErr != nil {
+		if strings.Contains(res.BuildErr.Error(), "shift count type") && strings.Contains(res.BuildErr.Error(), "must be integer") {
+			// a defect of the reference: go/types accepts x << string(0) (a shift count that is not
+			// an integer) and gc then stops with "internal compiler error: assertion failed"
+			ev.Excluded("reference_accepts_non_integer_shift_count")
+			return ""
+		}
+		if strings.Contains(res.BuildErr.Error(), "larger than address space") {
+			// go/types has no notion of sizes: it accepts [9223372036854775807]int, which gc rejects
+			// ("larger than address space") as Scriggo does
+			ev.Excluded("reference_has_no_size_limit")
+			return ""
+		}
 		return fmt.Sprintf("Build rejects a program the Go type checker accepts: %v", res.BuildErr)
 	}
 	return ""
@@ -102,6 +114,12 @@ func offSwitches() goprog.Off {
 }
 
 func classify(c Case, msg string) string {
+	if strings.HasPrefix(msg, "Build accepts") && (strings.Contains(msg, "out of bounds") || strings.Contains(msg, "out of range")) && strings.Contains(msg, "index") {
+		return "C03-constant-index-equal-to-array-length"
+	}
+	if strings.HasPrefix(msg, "Build accepts") && strings.HasSuffix(strings.TrimSpace(strings.SplitN(msg, "\n", 2)[0]), "is not a type") {
+		return "C03-predeclared-type-shadowed-at-package-level"
+	}
 	if strings.Contains(msg, "Build rejects") && strings.HasSuffix(strings.TrimSpace(msg), "division by zero") && regexp.MustCompile(`/ \(*float(32|64)\(0\)`).MatchString(c.Src) {
 		return "C03-float-division-by-constant-zero"
 	}
